@@ -125,7 +125,8 @@ def prune_cache(keep=120):
 # ---------------------------------------------------------------------------------------- nodes
 
 TRANSPARENT = {"ParenExpr", "ImplicitCastExpr", "MaterializeTemporaryExpr", "ExprWithCleanups",
-               "CXXBindTemporaryExpr", "ConstantExpr", "SubstNonTypeTemplateParmExpr", "FullExpr"}
+               "CXXBindTemporaryExpr", "ConstantExpr", "SubstNonTypeTemplateParmExpr", "FullExpr",
+               "CXXDefaultArgExpr", "CXXDefaultInitExpr"}
 
 NAMED_CHILDREN = ("init", "cond", "inc", "then", "else", "body", "range", "value", "pattern", "foldinit",
                   "filler")
